@@ -1,105 +1,170 @@
 (* C06 - property theorems only. Statements are about the Mech model of the interpreter's two cleanup
-   stacks (Model.v: mexec/mrun, transcribed from cleanup.cpp, statement_list_executor.cpp,
-   control_flow_executor.cpp, return.cpp, call_impl.cpp, interpreter.cpp as of the fix commits 52ea7be,
-   605aa41, c388113) and the structural Spec (Model.v: sexec/srun). Proofs: Refine.v, Once.v, SpecLaws.v.
-   Every theorem holds for ALL programs of the skeleton language, all states of the stated shape and
-   every `fuel` (fuel only bounds the recursion depth of the evaluators: every terminating run).
-   The machine of the code before the fixes and the witnesses that refuted these laws on it are kept in
-   Pinned.v (historical, not part of the obligations). *)
+   stacks AND its name-keyed destructor bookkeeping (Model.v: mexec/mrun, transcribed from cleanup.cpp,
+   statement_list_executor.cpp, control_flow_executor.cpp, return.cpp, call_impl.cpp, interpreter.cpp
+   [call_destructor, register_destructor_call], variables/manager.cpp [find_variable],
+   variables/declaration.cpp as of the fix commits 52ea7be, 605aa41, c388113) and the structural Spec on
+   object identities (Model.v: sexec/srun). Proofs: Refine.v, Shape.v, Once.v, SpecLaws.v.
+   Programs: functions with a depth parameter (recursion, any call graph), objects of three struct types
+   (R, Q, W = struct with an R member) whose VARIABLE NAMES come from an arbitrary pool, defers, blocks,
+   if/else, loops, break/continue/return.  `fuel` only bounds the recursion depth of the evaluators:
+   every terminating run.
+   Theorems without a hypothesis on the program hold for ALL programs, name collisions of every kind
+   included; the `_partial` ones need wf_prog (no function body re-declares a name that an earlier
+   declaration of the same or an enclosing block of that body uses; no W objects) - outside of it the
+   current code loses objects (`_refuted`, findings C06-shadowed-object-never-destroyed and
+   C06-redeclared-member-flag-stale).
+   The machine of the code before the three fixes and its witnesses are kept in Pinned.v (historical). *)
 From Coq Require Import List Arith Bool.
 Import ListNotations.
-From Cb Require Import C06.Model C06.Prims C06.Refine C06.Once C06.SpecLaws C06.Pinned C06.Witness.
+From Cb Require Import C06.Model C06.Prims C06.Refine C06.Shape C06.Once C06.SpecLaws C06.Pinned C06.Witness.
 
-(* the machine's transcript IS the structural cleanup order of the property, and both stacks end at
-   their initial depth (defer 0, destructor 1 = the global level, scopes 1).  An escaping break/continue
+(* the machine's transcript IS the structural cleanup order of the property, and both stacks and the
+   scope stack end at their initial depth (defer 0, destructor 1 = the global level, scopes 1) - although
+   cleanup is keyed by variable name and the same names are live in caller and callee, in every level
+   of a recursion, in sibling blocks and in successive loop iterations.  An escaping break/continue
    (run-time error, flag false) aborts both without cleanup. *)
-Theorem cleanup_mech_refines_spec : forall p fuel,
-  match srun fuel p with
-  | None => mrun fuel p = None
-  | Some (true, t) => mrun fuel p = Some (true, mk [] [[]] 1 t)
-  | Some (false, t) => exists st, mrun fuel p = Some (false, st) /\ tr st = t
+Theorem cleanup_mech_refines_spec_partial : forall p, wf_prog p = true -> forall fuel n0,
+  match srun fuel p n0 with
+  | None => mrun fuel p n0 = None
+  | Some (true, t) => mrun fuel p n0 = Some (true, mk [] [[]] [[]] t)
+  | Some (false, t) => exists st, mrun fuel p n0 = Some (false, st) /\ tr st = t
   end.
 Proof. exact run_ref. Qed.
-Print Assumptions cleanup_mech_refines_spec.
+Print Assumptions cleanup_mech_refines_spec_partial.
 
-(* the invariant that carries the induction: a statement started with the two stacks at
-   (D :: Ds, T :: Ts) ends - by whatever outcome (normal, return, break, continue) - with everything
-   below its own level untouched, both depths and the variable-scope depth restored *)
-Theorem stacks_balanced : forall p fuel it s D T Ds Ts sc t0 o st',
-  mexec fuel p it s (mk (D :: Ds) (T :: Ts) sc t0) = Some (o, st') ->
-  tl (dfs st') = Ds /\ tl (dts st') = Ts /\ scd st' = sc /\
-  length (dfs st') = S (length Ds) /\ length (dts st') = S (length Ts).
+(* ALL programs: a statement started with the two stacks at (D :: Ds, Tm :: Ts) in the variable scope
+   F :: Fs (every pending entry of its level naming a variable of F) ends - by whatever outcome - with
+   everything below its own level and every variable scope but its own activation's untouched, all three
+   depths restored *)
+Theorem stacks_balanced : forall p fuel n it s D Tm Ds Ts F Fs t0 o st', dom_ok F Tm ->
+  mexec fuel p n it s (mk (D :: Ds) (Tm :: Ts) (F :: Fs) t0) = Some (o, st') ->
+  tl (dfs st') = Ds /\ tl (dts st') = Ts /\ tl (vars st') = Fs /\
+  length (dfs st') = S (length Ds) /\ length (dts st') = S (length Ts) /\ length (vars st') = S (length Fs).
 Proof. exact stmt_balanced. Qed.
 Print Assumptions stacks_balanced.
 
-(* leaving a callee never runs cleanup that belongs to its caller: after a call both stacks are exactly
-   what they were - the caller's own pending defers D and objects T included - and what the call printed
-   is the callee's body closed as a scope, a function of the callee alone *)
-Theorem callee_leaves_caller_alone : forall p fuel it g D T Ds Ts sc t0 o st',
-  mexec (S fuel) p it (SCall g) (mk (D :: Ds) (T :: Ts) sc t0) = Some (o, st') ->
-  exists o1 t, scope_close (sexec_b fuel p None (body p g) [] []) = Some (o1, t) /\
-               o = call_outcome o1 /\ st' = mk (D :: Ds) (T :: Ts) sc (t0 ++ t).
-Proof. exact call_balanced. Qed.
+(* ALL programs: leaving a callee never runs cleanup that belongs to its caller and never touches the
+   caller's variables - after a call (of any function, recursion included, whatever names the callee
+   declares) both stacks and all variable scopes, destructor_called flags included, are exactly what
+   they were; the call only appends to the transcript and prints no imbalance line *)
+Theorem callee_leaves_caller_alone : forall p fuel n it g D Tm Ds Ts F Fs t0 o st',
+  mexec fuel p n it (SCall g) (mk (D :: Ds) (Tm :: Ts) (F :: Fs) t0) = Some (o, st') ->
+  exists t, st' = mk (D :: Ds) (Tm :: Ts) (F :: Fs) (t0 ++ t) /\ Forall not_imb t.
+Proof. exact call_isolated. Qed.
 Print Assumptions callee_leaves_caller_alone.
 
-(* complete run: ctor/dtor and reg/defer events are well bracketed (each object destroyed exactly once,
-   each reached defer run exactly once, LIFO, enclosed scopes before enclosing ones), no call-imbalance
-   line, final depths 0/1/1 *)
-Theorem each_object_once : forall p fuel st, mrun fuel p = Some (true, st) ->
-  chk2 [] [] (tr st) = Some ([], []) /\ Forall not_imb (tr st) /\ dfs st = [] /\ dts st = [[]] /\ scd st = 1.
+(* ... and what the call prints is the callee's body closed as a Spec scope: a function of the callee
+   and its depth argument alone *)
+Theorem callee_cleanup_is_its_own_partial : forall p, wf_prog p = true -> forall fuel n it g D Tm Ds Ts F Fs t0 o st',
+  mexec (S fuel) p n it (SCall g) (mk (D :: Ds) (Tm :: Ts) (F :: Fs) t0) = Some (o, st') ->
+  exists o1 t, scope_close (sexec_b fuel p (pred n) None (body p g) [] []) = Some (o1, t) /\
+               o = call_outcome o1 /\ st' = mk (D :: Ds) (Tm :: Ts) (F :: Fs) (t0 ++ t).
+Proof. exact call_transcript. Qed.
+Print Assumptions callee_cleanup_is_its_own_partial.
+
+(* ALL programs: a complete run ends with both stacks and the scope stack at their initial depth and
+   no call-imbalance line *)
+Theorem run_ends_balanced : forall p fuel n0 st, mrun fuel p n0 = Some (true, st) ->
+  dfs st = [] /\ dts st = [[]] /\ vars st = [[]] /\ Forall not_imb (tr st).
+Proof. exact run_balanced. Qed.
+Print Assumptions run_ends_balanced.
+
+(* complete run: ctor/dtor (with their struct type) and reg/defer events are well bracketed (each object
+   destroyed exactly once by the destructor of its own type, each reached defer run exactly once, LIFO,
+   enclosed scopes before enclosing ones) *)
+Theorem each_object_once_partial : forall p, wf_prog p = true -> forall fuel n0 st, mrun fuel p n0 = Some (true, st) ->
+  chk2 [] [] (tr st) = Some ([], []) /\ Forall not_imb (tr st) /\ dfs st = [] /\ dts st = [[]] /\ vars st = [[]].
 Proof. exact mrun_brackets. Qed.
-Print Assumptions each_object_once.
+Print Assumptions each_object_once_partial.
 
 (* leaving a block by ANY outcome appends, after what the block itself printed, the block's reached
-   defers in reverse registration order and THEN its objects' destructors in reverse construction order *)
-Theorem defer_before_dtor : forall p fuel it b Xs Ys sc t0 o st',
-  mexec (S fuel) p it (SBlock b) (mk Xs Ys sc t0) = Some (o, st') ->
-  exists t D' T', sexec_b fuel p it b [] [] = Some (o, t, D', T') /\
-                  st' = mk Xs Ys sc (t0 ++ t ++ map EDefer (rev D') ++ map EDtor (rev T')).
+   defers in reverse registration order and THEN its objects' destructors in reverse construction order;
+   the variables of the enclosing blocks (names N0) keep their slots *)
+Theorem defer_before_dtor_partial : forall p, wf_prog p = true -> forall fuel n it b N0 Xs Ys F Fs t0 o st',
+  wf_b [] N0 b = true ->
+  mexec (S fuel) p n it (SBlock b) (mk Xs Ys (F :: Fs) t0) = Some (o, st') ->
+  exists t D' T' F', sexec_b fuel p n it b [] [] = Some (o, t, D', T') /\
+                     st' = mk Xs Ys (F' :: Fs) (t0 ++ t ++ map EDefer (rev D') ++ map dtor_ev (rev T')) /\
+                     agree N0 F F'.
 Proof. exact block_exit_order. Qed.
-Print Assumptions defer_before_dtor.
+Print Assumptions defer_before_dtor_partial.
 
-(* every prefix of the machine's transcript, also of aborted runs (independent of the Spec): *)
-Theorem each_object_at_most_once : forall fuel p ok st, mrun fuel p = Some (ok, st) ->
-  forall t1 t2 k, tr st = t1 ++ t2 -> count (EDtor k) t1 <= count (ECtor k) t1.
+(* ALL programs, every prefix of the machine's transcript, also of aborted runs (independent of the
+   Spec): no object identity is destroyed more often than constructed - under shadowing and
+   re-declaration this is exactly what the destructor_called guard achieves - and no defer runs more
+   often than it was registered *)
+Theorem each_object_at_most_once : forall fuel p n0 ok st, mrun fuel p n0 = Some (ok, st) ->
+  forall t1 t2 k, tr st = t1 ++ t2 -> count (ev_dtor k) t1 <= count (ev_ctor k) t1.
 Proof. exact object_at_most_once. Qed.
 Print Assumptions each_object_at_most_once.
 
-Theorem each_defer_at_most_once : forall fuel p ok st, mrun fuel p = Some (ok, st) ->
-  forall t1 t2 k, tr st = t1 ++ t2 -> count (EDefer k) t1 <= count (EReg k) t1.
+Theorem each_defer_at_most_once : forall fuel p n0 ok st, mrun fuel p n0 = Some (ok, st) ->
+  forall t1 t2 k, tr st = t1 ++ t2 -> count (ev_defer k) t1 <= count (ev_reg k) t1.
 Proof. exact defer_at_most_once. Qed.
 Print Assumptions each_defer_at_most_once.
 
 (* ---- the Spec says what the property text says: *)
-Theorem spec_cleanup_lifo_exactly_once : forall p fuel t, srun fuel p = Some (true, t) ->
+Theorem spec_cleanup_lifo_exactly_once : forall p fuel n0 t, srun fuel p n0 = Some (true, t) ->
   chk2 [] [] t = Some ([], []).
 Proof. exact srun_brackets. Qed.
 Print Assumptions spec_cleanup_lifo_exactly_once.
 
-Theorem spec_defers_before_dtors : forall fuel p it b o t,
-  scope_close (sexec_b fuel p it b [] []) = Some (o, t) ->
-  exists t0 D T, sexec_b fuel p it b [] [] = Some (o, t0, D, T) /\
-                 t = t0 ++ map EDefer (rev D) ++ map EDtor (rev T).
+Theorem spec_defers_before_dtors : forall fuel p n it b o t,
+  scope_close (sexec_b fuel p n it b [] []) = Some (o, t) ->
+  exists t0 D T, sexec_b fuel p n it b [] [] = Some (o, t0, D, T) /\
+                 t = t0 ++ map EDefer (rev D) ++ map dtor_ev (rev T).
 Proof. exact scope_exit_order. Qed.
 Print Assumptions spec_defers_before_dtors.
 
+(* ---- outside wf_prog the CURRENT code violates the property (faithful model, confirmed on the binary):
+   an object whose variable name is re-declared in an inner block of the same function while it is live
+   is never destroyed ... *)
+Theorem shadowed_object_never_destroyed_refuted :
+  exists p st t, mrun 20 p 0 = Some (true, st) /\ srun 20 p 0 = Some (true, t) /\
+                 count (ev_ctor 1) (tr st) = 1 /\ count (ev_dtor 1) (tr st) = 0 /\ count (ev_dtor 1) t = 1.
+Proof.
+  exists wshadow. destruct wshadow_run as [A B]. do 2 eexists. split; [exact A|]. split; [exact B|].
+  repeat split; reflexivity.
+Qed.
+Print Assumptions shadowed_object_never_destroyed_refuted.
+
+(* ... and the R member of a W object declared again under the same name in the same activation (second
+   loop iteration) is never destroyed *)
+Theorem redeclared_member_never_destroyed_refuted :
+  exists p st t, mrun 20 p 0 = Some (true, st) /\ srun 20 p 0 = Some (true, t) /\
+                 count (ev_ctor 51) (tr st) = 2 /\ count (ev_dtor 51) (tr st) = 1 /\ count (ev_dtor 51) t = 2.
+Proof.
+  exists wmember. destruct wmember_run as [A B]. do 2 eexists. split; [exact A|]. split; [exact B|].
+  repeat split; reflexivity.
+Qed.
+Print Assumptions redeclared_member_never_destroyed_refuted.
+
 (* non-vacuity: a program with every construct and all three formerly defective shapes (a scope with
-   objects and defers, return after an object, return from inside a loop) runs to completion *)
-Example all_constructs_example : exists st, mrun 40 wall = Some (true, st) /\
-  tr st = [ECtor 1; EReg 2;
-           EReg 3; ECtor 4; EMark 5; ECtor 7; EReg 8; ECtor 9; EDefer 8; EDtor 9; EDtor 7; EDefer 3; EDtor 4;
-           EReg 3; ECtor 4; EDefer 3; EDtor 4;
-           EReg 11; ECtor 12; EReg 13; EDefer 13; EDtor 12; EDefer 11;
-           EMark 6; EDefer 2; EDtor 1].
-Proof. eexists; split; [exact wall_run|reflexivity]. Qed.
+   objects and defers, return after an object, return from inside a loop) is wf and runs to completion *)
+Example all_constructs_example : wf_prog wall = true /\ exists st, mrun 40 wall 0 = Some (true, st) /\
+  tr st = [ECtor TR 1; EReg 2;
+           EReg 3; ECtor TQ 4; EMark 5; ECtor TR 7; EReg 8; ECtor TR 9; EDefer 8; EDtor TR 9; EDtor TR 7; EDefer 3; EDtor TQ 4;
+           EReg 3; ECtor TQ 4; EDefer 3; EDtor TQ 4;
+           EReg 11; ECtor TR 12; EReg 13; EDefer 13; EDtor TR 12; EDefer 11;
+           EMark 6; EDefer 2; EDtor TR 1].
+Proof. split; [exact wall_wf|]. eexists; split; [exact wall_run|reflexivity]. Qed.
+
+(* non-vacuity of wf_prog for the name collisions the theorems are about: ONE name live at once in main,
+   its callee and every level of the callee's recursion (same type), in a function called from inside the
+   recursion (other type), in sibling blocks and successive loop iterations *)
+Example one_name_everywhere_example : wf_prog wnames = true /\
+  exists st, mrun 60 wnames 2 = Some (true, st) /\ srun 60 wnames 2 = Some (true, tr st).
+Proof.
+  split; [exact wnames_wf|]. eexists; split; [exact wnames_run|]. vm_compute; reflexivity.
+Qed.
 
 (* the former witnesses of findings #11, #43, #44 now give the demanded transcripts *)
 Example former_witnesses_conform :
-  (exists st, mrun 20 w11 = Some (true, st) /\ srun 20 w11 = Some (true, tr st)) /\
-  (exists st, mrun 20 w43 = Some (true, st) /\ srun 20 w43 = Some (true, tr st)) /\
-  (exists st, mrun 30 w44 = Some (true, st) /\ srun 30 w44 = Some (true, tr st)) /\
-  (exists st, mrun 20 wnever = Some (true, st) /\ srun 20 wnever = Some (true, tr st)).
+  (exists st, mrun 20 w11 0 = Some (true, st) /\ srun 20 w11 0 = Some (true, tr st)) /\
+  (exists st, mrun 20 w43 0 = Some (true, st) /\ srun 20 w43 0 = Some (true, tr st)) /\
+  (exists st, mrun 30 w44 0 = Some (true, st) /\ srun 30 w44 0 = Some (true, tr st)) /\
+  (exists st, mrun 20 wnever 0 = Some (true, st) /\ srun 20 wnever 0 = Some (true, tr st)).
 Proof.
   repeat split; eexists; (split; [first [exact w11_now|exact w43_now|exact w44_now|exact wnever_now]|]);
-    simpl; first [exact (proj2 w11_run)|exact (proj2 w43_run)|exact (proj2 w44_run)|exact (proj2 wnever_run)].
+    vm_compute; reflexivity.
 Qed.
